@@ -82,7 +82,7 @@ func refServe(header string, input []byte, ns, ownBare string) (want []bexp, end
 						continue
 					}
 					if c.Name.Space != "urn:ietf:params:xml:ns:xmpp-streams" {
-						return want, "error", "" // application-specific content: only "some error" is asserted
+						continue // an application-specific condition (RFC 6120 4.9.2)
 					}
 					if c.Name.Local != "text" {
 						conds = append(conds, c.Name.Local)
@@ -196,11 +196,12 @@ func startNoFrom(s xml.StartElement) string {
 }
 
 type bcase struct {
-	s2s    bool
-	local  jid.JID
-	origin jid.JID
-	input  []byte
-	progs  []readProg
+	s2s        bool
+	local      jid.JID
+	origin     jid.JID
+	negotiated string
+	input      []byte
+	progs      []readProg
 }
 
 func (bc bcase) String() string {
@@ -222,12 +223,14 @@ func checkBytes(t interface {
 		t.Helper()
 		ev.Failf(t, "%s\n%s", bc.String(), fmt.Sprintf(format, args...))
 	}
-	opts := wire.SessionOpts{Local: bc.local, Origin: bc.origin}
+	opts := wire.SessionOpts{Local: bc.local, Origin: bc.origin, Negotiated: bc.negotiated}
 	if bc.s2s {
 		opts.State |= xmpp.S2S
 	}
 	ns := opts.NS()
-	want, end, cond := refServe(opts.Header(), bc.input, ns, bc.local.Bare().String())
+	// (the model only needs the namespace context of the stream header, not what
+	// a negotiated session exchanges after it)
+	want, end, cond := refServe(wire.SessionOpts{State: opts.State}.Header(), bc.input, ns, bc.local.Bare().String())
 
 	conn := wire.NewConn()
 	conn.FeedString(opts.Header())
@@ -328,7 +331,8 @@ func checkBytes(t interface {
 // hostile snippets spliced into otherwise grammatical input
 var snippets = []string{
 	`<!--x-->`, `<?p q?>`, `<!DOCTYPE a>`, `</stream:stream>`, `<stream:error><conflict xmlns="urn:ietf:params:xml:ns:xmpp-streams"/></stream:error>`,
-	`<stream:error/>`, `<stream:error><a xmlns="urn:x"/></stream:error>`, `&#x20;`, `&#xA0;`, `<![CDATA[ ]]>`, `<![CDATA[x]]>`, `]]>`, `&amp;`, `&lt;`,
+	`<stream:error/>`, `<stream:error><a xmlns="urn:x"/></stream:error>`, `<stream:error><not-well-formed xmlns="urn:ietf:params:xml:ns:xmpp-streams"/><escape-your-data xmlns="http://example.org/ns"/></stream:error>`,
+	`<stream:error><too-many-sessions xmlns="urn:verif:app"/><policy-violation xmlns="urn:ietf:params:xml:ns:xmpp-streams"/><text xmlns="urn:ietf:params:xml:ns:xmpp-streams">t</text></stream:error>`, `&#x20;`, `&#xA0;`, `<![CDATA[ ]]>`, `<![CDATA[x]]>`, `]]>`, `&amp;`, `&lt;`,
 	`<a xmlns:stream="urn:verif:notstream"><stream:error/></a>`, `<a xmlns:foo="http://etherx.jabber.org/streams"><foo:error/></a>`,
 	`<error xmlns="http://etherx.jabber.org/streams"/>`, `<foo:bar xmlns:foo="http://etherx.jabber.org/streams"/>`,
 	`<iq xmlns:x="urn:verif:x" x:from="test@example.net" from="test@example.net" type="get" id="q"><p xmlns="urn:verif:x"/></iq>`,
@@ -342,7 +346,7 @@ var snippets = []string{
 
 func genBytes(t *rapid.T) bcase {
 	tc := genCase(t)
-	bc := bcase{s2s: tc.s2s, local: tc.local, origin: tc.origin}
+	bc := bcase{s2s: tc.s2s, local: tc.local, origin: tc.origin, negotiated: tc.negotiated}
 	in := []byte(tc.input())
 	nm := rapid.IntRange(0, 4).Draw(t, "mutations")
 	for i := 0; i < nm; i++ {
